@@ -279,6 +279,22 @@ def narrow(ctx):
                 if short in ("saturating_add", "saturating_sub", "saturating_mul", "checked_add", "checked_sub", "unwrap_or", "duration_since"):
                     n += 1
                     res.ok({"function": f.path, "total_operation": short})
+    # plain integer arithmetic in the conversions: every overflow-checked operation must be discharged (the
+    # conversions are total: they saturate, they do not panic in debug builds and wrap in release builds)
+    import rules_sink
+    cl = rules_sink.Classifier(ctx)
+    for f in ctx.fx.fns.values():
+        if not any(f.path.startswith(m) or ("<" + m) in f.path for m in mods):
+            continue
+        for s_ in rules_sink.enumerate_sinks(f):
+            if not s_["kind"].startswith("Overflow"):
+                continue
+            n += 1
+            desc, atoms, auto = cl.classify(f, s_)
+            if auto or cl.audited(f, s_["kind"], desc, atoms) is not None:
+                res.ok({"function": f.path, "arithmetic": desc[:80], "discharged": True})
+            else:
+                res.fail(Finding("R-NARROW", "R-NARROW/%s/unchecked-integer-arithmetic" % f.path, "%s in the time conversion can overflow (%s): an out-of-range time panics in a debug build and wraps to an unrelated time in a release build instead of saturating" % (s_["kind"], desc[:100]), f))
     res.floor("conversion operations", n, ctx.table("floors").get("narrow_sites", 0))
     return res
 
